@@ -1,6 +1,7 @@
 #!/bin/sh
-# usage: confirm_seeded.sh <Cxx> : in /tmp/wt-<Cxx>, confirm tests pass with the change, demo FAILs with it and PASSes without
-P=$1; W=/tmp/wt-$P
+# usage: confirm_seeded.sh <Cxx> [prefix] : in /tmp/<prefix>-<Cxx> (default prefix wt), confirm tests pass with the
+# change, demo FAILs with it and PASSes without; leaves the patch in /tmp/seed-<Cxx>.diff
+P=$1; PRE=${2:-wt}; W=/tmp/$PRE-$P
 cd $W || exit 2
 git diff -- aiuti > /tmp/seed-$P.diff
 echo "== tests with change"; PYTHONPATH=$W timeout 900 /venv/bin/python -m pytest -q -p no:cacheprovider --timeout=900 tests aiuti/asyncio.py aiuti/itertools.py aiuti/parsing.py 2>&1 | tail -1
